@@ -22,11 +22,11 @@ import (
 // return. Assignments whose right-hand side is not a call (err = nil, err = otherErr) are not definitions of
 // interest. errLookedAtExceptions lists the sites of today's tree where an error is deliberately not looked at.
 var errLookedAtExceptions = map[string]string{
-	"E2 lexer.next:ReadRune1":              "end of input ends the last token: the lexer reports the token it has (true) and the next call reports the end",
-	"E2 auth.AuthPlain:AuthPlain1":         "a provider's refusal is superseded by the next provider's answer; the last one is what the final return reports (success comes only from a nil answer: C14.R3b)",
-	"E2 smtp.releaseLimits:Split1":         "cannot fail: the very same string was split successfully when the permit was taken (C03.R5 / C03.immut)",
+	"E2 lexer.next:ReadRune1":               "end of input ends the last token: the lexer reports the token it has (true) and the next call reports the end",
+	"E2 auth.AuthPlain:AuthPlain1":          "a provider's refusal is superseded by the next provider's answer; the last one is what the final return reports (success comes only from a nil answer: C14.R3b)",
+	"E2 smtp.releaseLimits:Split1":          "cannot fail: the very same string was split successfully when the permit was taken (C03.R5 / C03.immut)",
 	"E2 msgpipeline.srcBlockForAddr:Split1": "the empty reverse-path is not an address: the error is deliberately ignored for it (comment at the site) and the lookup goes on with empty parts",
-	"E1 pass_table.AuthPlain:Lookup1": "the `ok` result is tested before the error: a failed table lookup is answered as 'unknown credentials'; authentication is refused on both paths, so C14 is not affected (the reply class for a broken table is outside the listed properties)",
+	"E1 pass_table.AuthPlain:Lookup1":       "the `ok` result is tested before the error: a failed table lookup is answered as 'unknown credentials'; authentication is refused on both paths, so C14 is not affected (the reply class for a broken table is outside the listed properties)",
 }
 
 // errLookedAt examines one function (and, separately, each function literal in it) and returns the obligations
@@ -343,7 +343,6 @@ func funcsOfPkgs(p *Prog, rels ...string) []*FuncInfo {
 	return out
 }
 
-
 // errDisciplineSeen applies E1 to every function the property's own rules looked at (c.funcs).
 func errDisciplineSeen(c *Check) {
 	p := c.P
@@ -384,7 +383,6 @@ func errDisciplineSeen(c *Check) {
 // e1Floor: number of error-producing steps seen in each property's functions on the reference tree, halved (behaviour-preserving restructuring moves steps between functions; the floor only guards against a vacuous pass).
 var e1Floor = map[string]int{"C01": 19, "C02": 14, "C03": 26, "C04": 20, "C05": 13, "C06": 23, "C07": 2, "C09": 12, "C10": 18, "C11": 33, "C13": 3, "C14": 11, "C15": 5, "C17": 4, "C18": 9, "C20": 10}
 
-
 // readsObjReal: node n uses variable o other than as an assignment target and other than in a comparison with nil.
 func readsObjReal(info *types.Info, n ast.Node, o types.Object) bool {
 	found := false
@@ -421,7 +419,6 @@ func readsObjReal(info *types.Info, n ast.Node, o types.Object) bool {
 	})
 	return found
 }
-
 
 // E4 comma-ok discipline: the value of `v, ok := x.(T)`, `v, ok := m[k]` or `v, ok := <-ch` is not read where ok is
 // known to be false (it is the zero value there: a nil pointer, an empty entitlement, code 0).
@@ -533,7 +530,6 @@ func commaOkSites(p *Prog, fi *FuncInfo) map[string]string {
 	}
 	return out
 }
-
 
 // readsUnguarded: node n reads v outside the right operand of `ok && …` / `!ok || …` (where ok is known true).
 func readsUnguarded(info *types.Info, n ast.Node, v, okv types.Object) bool {
